@@ -46,15 +46,61 @@ def showNet (net : Net) : String :=
   let attr := match linkAttr net with
     | none => "none"
     | some f => showRatMat ((List.range net.N).map fun i => (List.range net.N).map fun j => f i j)
+  let gvw := match net.gvw with
+    | none => "none"
+    | some v => showRats v
   join [toString net.N, toString net.nLinks, showRat net.density, showIntMat net.spA,
-        showGraph net, showRats net.w, showRat net.total, showRat net.mean, attr] "|"
+        showGraph net, showRats net.w, showRat net.total, showRat net.mean, attr, gvw] "|"
+
+/-! arguments of the history statements are small formulas evaluated on both sides
+(harness/c05.py: `formula_w`, `formula_v`, `formula_a`) -/
+
+def loHi (directed : Bool) (i j : Nat) : Nat × Nat :=
+  if directed then (i, j) else (min i j, max i j)
+
+def formulaW (n : Nat) (a b : Nat) (k : Int) : List Rat :=
+  (List.range n).map fun i => (((a * i + b) % 13 : Nat) : Rat) / 4 * pow2 k
+
+def formulaV (directed : Bool) (a b c : Nat) (k : Int) (i j : Nat) : Rat :=
+  let p := loHi directed i j
+  ((((a * p.1 + b * p.2 + c) % 17 : Nat) : Int) - 5 : Int) / 4 * pow2 k
+
+def formulaA (directed : Bool) (a b c : Nat) (i j : Nat) : Int :=
+  let p := loHi directed i j
+  if i != j && decide ((a * p.1 + b * p.2 + c) % 5 < 2) then 1 else 0
+
+def opArgs (s : String) : List Int := (s.splitOn "_").filterMap String.toInt?
+
+/-- the statements of `Repr.Op`, by name -/
+def parseOp (net : Net) (op : String) : Option Op :=
+  match op.splitOn "=" with
+  | ["copy"] => some .copy
+  | ["saveload"] => some .reload
+  | ["save"] => some .save
+  | ["regraph"] => some .regraph
+  | ["delattr"] => some .delAttr
+  | ["setwnone"] => some (.setW none)
+  | ["setw", args] => match opArgs args with
+    | [a, b, k] => some (.setW (some (formulaW net.N a.toNat b.toNat k)))
+    | _ => none
+  | ["setattr", args] => match opArgs args with
+    | [a, b, c, k] => some (.setAttr (formulaV net.directed a.toNat b.toNat c.toNat k))
+    | _ => none
+  | ["setadj", args] => match opArgs args with
+    | [a, b, c] => some (.setAdj (ofDenseMat net.N net.N
+        (formulaA net.directed a.toNat b.toNat c.toNat)))
+    | _ => none
+  | _ => none
 
 def applyOp (cosLat : List Rat) (_wtype : Nat) (r : Except Err Net) (op : String) : Except Err Net := do
   let net ← r
+  match parseOp net op with
+  | some o => step id net o
+  | none =>
   match op with
-  | "copy" => copy net
   | "ucopy" => undirectedCopy net
-  | "saveload" => saveLoad id net
+  | "pcopy" =>        -- permuted_copy(identity): Network(adjacency=sp_A[idx][:, idx], node_weights=w[idx])
+      init net.directed (.sparse net.sparse) (some net.w)
   | "saveload_gml" => saveLoad gmlStore net
   | "loadspatial_gml" => loadViaAdjacency (gmlStore (toIGraph net)) none
   | "loadgeo_gml" => loadViaAdjacency (gmlStore (toIGraph net)) (some (geoWeights cosLat 1))
